@@ -22,11 +22,11 @@ const NONE: usize = usize::MAX;
 #[derive(Clone, Debug, PartialEq)]
 pub enum Ev {
     /// the thread acquired the mutex
-    Acq { tid: usize, mx: usize },
+    Acq { tid: usize, mx: usize, clock_ns: u64 },
     /// the thread entered a (timed) wait on the condition variable, releasing the mutex
     Wait { tid: usize, cv: usize, timeout_ns: Option<u64> },
     /// notify_one: the waiter that was woken, if any was waiting
-    Notify { tid: usize, cv: usize, woken: Option<usize> },
+    Notify { tid: usize, cv: usize, woken: Option<usize>, clock_ns: u64 },
     NotifyAll { tid: usize, cv: usize },
     /// the timed wait of this thread was ended by the clock (which now shows `clock_ns`)
     Fire { tid: usize, clock_ns: u64 },
@@ -364,7 +364,8 @@ impl<T> Mutex<T> {
             let s = g.as_mut().unwrap();
             if s.owners[self.id].is_none() {
                 s.owners[self.id] = Some(m);
-                s.trace.push(Ev::Acq { tid: m, mx: self.id });
+                let c = s.clock;
+                s.trace.push(Ev::Acq { tid: m, mx: self.id, clock_ns: c });
                 break;
             }
             s.th[m].st = St::Mx(self.id);
@@ -500,7 +501,8 @@ impl Condvar {
             s.th[ws[k]].st = St::Runnable;
             Some(ws[k])
         };
-        s.trace.push(Ev::Notify { tid: m, cv: self.id, woken });
+        let c = s.clock;
+        s.trace.push(Ev::Notify { tid: m, cv: self.id, woken, clock_ns: c });
     }
 }
 
